@@ -35,9 +35,11 @@ func AllQueries(tier string, k int) []Query {
 	}
 	if tier == "thorough" {
 		add(PatternFamily(3), 1, 4, 3000)
+		add(TailFamily(), 1, 4, 3000)
 		add(CorpusQueries(true), 0, 3, 2000)
 	} else {
 		add(PatternFamily(3), 1, 3, 400)
+		add(TailFamily(), 1, 3, 400)
 		add(CorpusQueries(true), 1, 3, 200)
 	}
 	return out
